@@ -58,6 +58,7 @@ var findingFeatures = map[string][]string{
 	"nonlocal-struct-nested-selector-assign": {"structrole.nonlocal-nested-assign"},
 	"range-struct-value-aliases-element":     {"structrole.range-value-modify"},
 	"nil-func-field-not-nil":                 {"structrole.nil-func-field"},
+	"field-pointer-stale-after-whole-assign": {"structrole.field-pointer-whole-assign"},
 }
 
 // ---------------------------------------------------------------- opcode-level cases
